@@ -7,6 +7,8 @@ LEVEL = "translation_validation"
 
 
 def run(chk, tier):
+    import gflow
+    gflow.check_numeric_text(chk)
     e4.check(chk, ("traits",), tier)
     # type_traits<Tag>::min_value()/max_value()/null_value() return value_type's limits: those come from the XML
     # attribute or, when absent, from the generator's default tables, which must equal the SBE-derived constants
